@@ -249,3 +249,21 @@ def passthrough_conserves(fn, take, item, loop):
     is_fwd = lambda n: n.kind == "stmt" and isinstance(n.stmt, ast.Expr) and isinstance(n.stmt.value, ast.Yield) and isinstance(n.stmt.value.value, ast.Name) and n.stmt.value.value.id == item
     ok, path = cfg.every_path([tn], [ln], lambda n: is_fwd(n) or (n is not ln and not in_loop(n)), "n")
     return ok, path
+
+
+def on_every_iteration(cfg, loop, stmts):
+    """Every path through one iteration of `loop` (from the first statement of its body back to the
+    loop head, leaving the loop counts as conforming) executes one of `stmts`."""
+    nodes = [cfg.node_of(x) for x in stmts]
+    if not nodes:
+        return False
+    ln = cfg.node_of(loop)
+    first = cfg.nodes_of(loop.body[0])
+    if any(b in nodes for b in first):
+        return True
+    inside = {id(x) for st_ in loop.body for x in ast.walk(st_)}
+
+    def in_loop(n):
+        return id(n.stmt if n.kind == "stmt" else n.owner) in inside
+
+    return cfg.every_path(first, [ln], lambda n: n in nodes or (n is not ln and not in_loop(n)), "n")[0]
